@@ -94,6 +94,16 @@ func stepModel(state, input, output interface{}) []interface{} {
 				return one(st)
 			}
 		}
+	case "pushbad": // wrong bytes: must fail, and never changes the state
+		switch out.Class {
+		case cOK:
+		case cExists, cDupName:
+			if st != "" {
+				return one(st)
+			}
+		default:
+			return one(st)
+		}
 	case "restore":
 		if st == "" {
 			return []interface{}{"", in.Val}
@@ -236,8 +246,41 @@ func contentPart(kind string, it *item) (part, val string) {
 }
 
 type planned struct {
-	in   cin
-	desc ocispec.Descriptor // tag: the (unique) descriptor written
+	in    cin
+	desc  ocispec.Descriptor // tag: the (unique) descriptor written
+	stall int                // pushbad: completed calls of others to wait for mid-stream
+}
+
+// stallReader hands out b[:cut], then waits until `need` more calls have
+// completed anywhere in the case (at most about a millisecond: time only
+// perturbs the schedule, no verdict depends on it), then the rest.
+type stallReader struct {
+	b        []byte
+	cut, off int
+	progress *atomic.Int64
+	need     int64
+	stalled  bool
+}
+
+func (r *stallReader) Read(p []byte) (int, error) {
+	if r.off >= len(r.b) {
+		return 0, io.EOF
+	}
+	end := len(r.b)
+	if r.off < r.cut {
+		end = r.cut
+	} else if !r.stalled {
+		r.stalled = true
+		from := r.progress.Load()
+		deadline := time.Now().Add(time.Millisecond)
+		for r.progress.Load() < from+r.need && time.Now().Before(deadline) {
+			runtime.Gosched()
+			time.Sleep(10 * time.Microsecond)
+		}
+	}
+	n := copy(p, r.b[r.off:end])
+	r.off += n
+	return n, nil
 }
 
 // hook jitter: widen the windows between the library's critical sections
@@ -297,6 +340,8 @@ func runConc(phase string, i int, seed int64) worker.Result {
 	var violMu sync.Mutex
 	wrongBytes := ""
 
+	var progress atomic.Int64 // calls completed so far: releases stalled readers
+
 	// exec performs one call at the boundary and records it
 	exec := func(client int, p planned) {
 		in := p.in
@@ -306,6 +351,14 @@ func runConc(phase string, i int, seed int64) worker.Result {
 		case "push":
 			it := cu.items[in.Item]
 			out.Class = classify(h.t.Push(ctx, it.Desc, bytes.NewReader(it.Bytes)))
+		case "pushbad":
+			// wrong bytes of the right length under the descriptor others push correctly; the
+			// reader stalls after the first chunk until other calls have completed (or a short
+			// while has passed), so that this failing push overlaps a complete good one
+			it := cu.items[in.Item]
+			bad := append([]byte{}, it.Bytes...)
+			bad[len(bad)-1] ^= 0x55
+			out.Class = classify(h.t.Push(ctx, it.Desc, &stallReader{b: bad, cut: (len(bad) + 1) / 2, progress: &progress, need: int64(p.stall)}))
 		case "fetch":
 			it := cu.items[in.Item]
 			rc, err := h.t.Fetch(ctx, it.Desc)
@@ -343,6 +396,7 @@ func runConc(phase string, i int, seed int64) worker.Result {
 			out.Class = classify(h.oci.Untag(ctx, in.Ref))
 		}
 		ret := clock.Add(1)
+		progress.Add(1)
 		mu.Lock()
 		hist = append(hist, crec{Client: client, In: in, Out: out, Call: call, Ret: ret})
 		// a manifest push may, as a side effect inside the same call, create listed file names
@@ -373,9 +427,11 @@ func runConc(phase string, i int, seed int64) worker.Result {
 	for _, b := range cu.base {
 		exec(setupClient, mkContent("push", b))
 	}
+	prePushed := map[int]bool{}
 	for _, it := range cu.hot {
 		if rng.IntN(4) == 0 {
 			exec(setupClient, mkContent("push", it))
+			prePushed[it.ID] = true
 		}
 	}
 	if rng.IntN(2) == 0 {
@@ -408,8 +464,11 @@ func runConc(phase string, i int, seed int64) worker.Result {
 			}
 			w := rng.IntN(100)
 			switch {
-			case w < 45:
+			case w < 38:
 				p = mkContent("push", it)
+			case w < 47:
+				p = mkContent("pushbad", it)
+				p.stall = 1 + rng.IntN(4)
 			case w < 65:
 				p = mkContent("fetch", it)
 			case w < 80 || kind != "oci" || isBase:
@@ -430,6 +489,19 @@ func runConc(phase string, i int, seed int64) worker.Result {
 			}
 		}
 		plans[g] = append(plans[g], p)
+	}
+	// duels: a failing push of wrong bytes and a good push of the same, still absent, descriptor
+	// start together in two goroutines (the only window on stores without Delete)
+	for _, it := range cu.hot {
+		if prePushed[it.ID] || rng.IntN(2) == 0 {
+			continue
+		}
+		a := rng.IntN(G)
+		b := (a + 1 + rng.IntN(G-1)) % G
+		bad := mkContent("pushbad", it)
+		bad.stall = 1 + rng.IntN(3)
+		plans[a] = append([]planned{bad}, plans[a]...)
+		plans[b] = append([]planned{mkContent("push", it)}, plans[b]...)
 	}
 
 	hookSalt.Store(rng.Uint64())
@@ -495,6 +567,8 @@ func runConc(phase string, i int, seed int64) worker.Result {
 				want = cDupName
 			}
 			bad = r.Out.Class != cOK && r.Out.Class != want
+		case "pushbad":
+			bad = r.Out.Class == cOK
 		case "fetch":
 			bad = r.Out.Class != cOK && r.Out.Class != cNotFnd
 		case "exists":
@@ -636,6 +710,21 @@ func runConc(phase string, i int, seed int64) worker.Result {
 			relaxedPush += n - 1
 		}
 	}
+	badPushes, badOverGood := 0, 0
+	for _, a := range conc {
+		if a.In.Op != "pushbad" {
+			continue
+		}
+		badPushes++
+		for _, b := range conc {
+			if b.In.Op == "push" && b.Out.Class == cOK && b.In.Part == a.In.Part && b.Client != a.Client && a.Call < b.Call && b.Ret < a.Ret {
+				badOverGood++
+				break
+			}
+		}
+	}
+	res.Count("conc_bad_pushes", int64(badPushes))
+	res.Count("conc_bad_push_spanning_a_complete_good_push_same_key", int64(badOverGood))
 	res.Count("conc_calls_recorded", int64(len(hist)))
 	res.Count("conc_overlapping_write_pairs_same_key", int64(overlapW))
 	res.Count("conc_pushes_ok_beyond_first_same_key", int64(relaxedPush))
